@@ -4,6 +4,12 @@
 //@ include prelude/head.rs
 use std::rc::Rc;
 
+// C13, the assert hook: `Builtins::assert` (runtime.rs) verbatim, with `Environment::record_assert_result`
+// (environment.rs) and the collector (build/mod.rs) below it -- all three bodies are verified here, nothing
+// about them is assumed.  R11: `env: &RefCell<Environment<O,E>>` -> `env: &mut VEnv`; `env.borrow_mut()` stays
+// verbatim and resolves to the identity stand-in `VEnv::borrow_mut` (prelude/collector_env.rs).
+// R7: the now unused type parameters O, E and their `std::io::Write + Clone` bounds are dropped.
+// R1: the three TYPE FAIL messages become opaque strings (their text is not part of the property).
 verus! {
 //@ include prelude/core.rs
 //@ include prelude/vm_types.rs
